@@ -500,3 +500,76 @@ func TestD21(t *testing.T) {
 		wg.Wait()
 	}
 }
+
+// ---- D22 (C15): NewValueSet pasted the subtype raw into a struct tag: a quote,
+// backslash or newline in it was truncated, interpreted, or made the tag unreadable ----
+func TestD22(t *testing.T) {
+	intT := reflect.TypeOf(0)
+	for _, st := range []string{`a"b`, `a\qb`, `a\`, "a\nb", `a\nb`, `x y`, `k="v"`} {
+		for _, name := range []string{"", "n"} {
+			set, err := am.NewValueSet([]am.Value{{Name: name, Type: intT, Subtype: st}})
+			if err != nil {
+				t.Fatalf("subtype %q name %q: %v", st, name, err)
+			}
+			vs := set.Values()
+			if len(vs) != 1 || vs[0].Name != name || vs[0].Subtype != st || vs[0].Type != intT {
+				t.Fatalf("subtype %q name %q: reported back as %#v", st, name, vs)
+			}
+			if v := set.TypedSubtype(intT, st); v == nil {
+				t.Fatalf("subtype %q name %q: TypedSubtype does not find the value", st, name)
+			}
+		}
+	}
+}
+
+// ---- D23 (C06, C15): a value name that is not a Go identifier ("a-b", "1a", "_x" -- legal
+// in a struct tag and in Named(...)) made NewValueSet and Redefine panic in reflect.StructOf ----
+func TestD23(t *testing.T) {
+	intT := reflect.TypeOf(0)
+	for _, name := range []string{"a-b", "1a", "a b", "a.b", "_x"} {
+		func() {
+			defer func() {
+				if r := recover(); r != nil {
+					t.Fatalf("NewValueSet with name %q panicked: %v", name, r)
+				}
+			}()
+			set, err := am.NewValueSet([]am.Value{{Name: name, Type: intT}})
+			if err != nil {
+				t.Fatalf("name %q: %v", name, err)
+			}
+			if v := set.Named(name); v == nil || v.Type != intT {
+				t.Fatalf("name %q: not found by name; values %v", name, set.Values())
+			}
+		}()
+	}
+	// Redefine: the parameter is named by a tag
+	f := am.MustFunc(am.NewFunc(func(in struct {
+		am.Struct
+		A int `argmapper:"a-b"`
+	}) int {
+		return in.A + 1
+	}))
+	if r := f.Call(nolog, am.Named("a-b", 3)); r.Err() != nil || r.Out(0).(int) != 4 {
+		t.Fatalf("plain call: %v", r.Err())
+	}
+	var g *am.Func
+	var err error
+	func() {
+		defer func() {
+			if r := recover(); r != nil {
+				t.Fatalf("Redefine panicked: %v", r)
+			}
+		}()
+		g, err = f.Redefine(nolog)
+	}()
+	if err != nil {
+		t.Fatalf("Redefine: %v", err)
+	}
+	ins := g.Input().Values()
+	if len(ins) != 1 || ins[0].Name != "a-b" {
+		t.Fatalf("inputs of the redefined function: %v", ins)
+	}
+	if r := g.Call(nolog, am.Named("a-b", 5)); r.Err() != nil || r.Out(0).(int) != 6 {
+		t.Fatalf("calling the redefined function: err=%v", r.Err())
+	}
+}
